@@ -590,10 +590,11 @@ impl Scheduler {
                 QueueState::Panicked            => RunAction::Panic,
                 QueueState::Pending             => RunAction::Busy,
                 QueueState::Idle                => { 
-                    core.state = QueueState::Running;
                     if core.queue.len() == 0 {
+                        core.state = QueueState::Running;
                         RunAction::Immediate 
                     } else {
+                        // Jobs are waiting and the queue is about to be rescheduled: the queue is not claimed if we're returning busy
                         RunAction::Busy
                     } 
                 }
